@@ -371,9 +371,18 @@ pub struct Interface {
     pub explicit_as: bool,
     /// concrete types of the extra associated types `A0`, `A1`..
     pub assoc: Vec<Ty>,
+    /// names of those associated types (empty = `A0`, `A1`..)
+    #[serde(default)]
+    pub assoc_names: Vec<String>,
     pub style: CustomStyle,
     pub methods: Vec<Method>,
     pub msg_attrs: Vec<(Kind, MsgAttr)>,
+}
+
+impl Interface {
+    pub fn assoc_name(&self, k: usize) -> String {
+        self.assoc_names.get(k).cloned().unwrap_or_else(|| format!("A{k}"))
+    }
 }
 
 #[derive(Clone, Debug, PartialEq, Eq, Hash, Serialize, Deserialize)]
